@@ -4,6 +4,9 @@ import Liquid.Render
 whatever the writer answers (used by C11, C12).
 -/
 
+/-- `bytes.TrimLeftFunc` of the empty string (the `Write("")` part of `WriteVerbatim`) -/
+@[simp] theorem trimLeftSpace_nil : trimLeftSpace [] = [] := rfl
+
 inductive AllRet {α : Type} (Q : α → Prop) : Prog α → Prop where
   | ret (a) : Q a → AllRet Q (.ret a)
   | fail (e) : AllRet Q (.fail e)
